@@ -204,6 +204,39 @@ def check_panel(case, ctx):
         for i, key in enumerate(('Nxx', 'Nyy', 'Nxy', 'Mxx', 'Myy', 'Mxy')):
             _close_field(ctx, 'stress.' + key, ss[key], want[i], bnd[i], tol=1e-10,
                          bucket=name + '.stress(NLterms=%s).%s' % (flag, key))
+    # the amplitude vector in another container: a strided view (column of a mode matrix, every other entry of a longer array),
+    # a plain list, a float32-free integer-free copy in Fortran order - all the same numbers, so all the same fields
+    form = case.get('c_form', 'contiguous')
+    if form != 'contiguous':
+        if form == 'column':
+            big = np.zeros((c.size, 3))
+            big[:, 1] = c
+            c2 = big[:, 1]
+        elif form == 'strided':
+            big = np.zeros(2 * c.size)
+            big[::2] = c
+            c2 = big[::2]
+        elif form == 'reversed-view':
+            c2 = c[::-1].copy()[::-1]
+        else:
+            c2 = [float(x) for x in c]
+        ctx.label('c:' + form)
+        p.out_num_cores = nc
+        with package(name + '.uvw'):
+            r6 = p.uvw(c2, xs=xs, ys=ys)
+        for a_, b_, nm in zip(base, r6, ('u', 'v', 'w', 'phix', 'phiy')):
+            ctx.ok(np.array_equal(np.asarray(a_), np.asarray(b_)), name + '.amplitude-container', '%s differs when c is given as %s' % (nm, form))
+        with package(name + '.strain'):
+            s6 = p.strain(c2, xs=xs, ys=ys, NLterms=NL)
+            ss6 = p.stress(c2, xs=xs, ys=ys, NLterms=NL)
+            ss0 = p.stress(c, xs=xs, ys=ys, NLterms=NL)
+        sref = sn if NL else sl
+        for key in ('exx', 'eyy', 'gxy', 'kxx', 'kyy', 'kxy'):
+            ctx.ok(np.array_equal(np.asarray(s6[key]), np.asarray(sref[key])), name + '.amplitude-container',
+                   'strain %s differs when c is given as %s' % (key, form))
+        for key in ('Nxx', 'Nyy', 'Nxy', 'Mxx', 'Myy', 'Mxy'):
+            ctx.ok(np.array_equal(np.asarray(ss6[key]), np.asarray(ss0[key])), name + '.amplitude-container',
+                   'stress %s differs when c is given as %s' % (key, form))
     # thread independence for strains
     for nc2 in case['other_cores'][:1]:
         p.out_num_cores = nc2
@@ -368,6 +401,7 @@ def _panel_strategy(draw, tier='quick'):
     case['perm'] = [draw(st.integers(0, 1000)) for _ in range(7)]
     case['NL'] = draw(st.booleans())
     case['layout'] = draw(st.sampled_from(['C', 'F', 'T', 'mixed', 'strided']))
+    case['c_form'] = draw(st.sampled_from(['contiguous', 'column', 'strided', 'reversed-view', 'list']))
     case['rows'] = draw(st.integers(2, 5))
     case['F'] = draw(st.one_of(st.none(), st.lists(st.lists(gen.fl(-1., 1.), min_size=6, max_size=6), min_size=6, max_size=6)))
     return case
